@@ -13,8 +13,8 @@ import (
 )
 
 const (
-	MTImage = "application/vnd.oci.image.manifest.v1+json"
-	MTIndex = "application/vnd.oci.image.index.v1+json"
+	MTImage     = "application/vnd.oci.image.manifest.v1+json"
+	MTIndex     = "application/vnd.oci.image.index.v1+json"
 	EmptyDigest = "sha256:e3b0c44298fc1c149afbf4c8996fb92427ae41e4649b934ca495991b7852b855"
 )
 
@@ -38,10 +38,10 @@ type Session struct {
 }
 
 type Repo struct {
-	Blobs     map[string][]byte
+	Blobs map[string][]byte
 	// BlobMT: per blob, the media types it may be described with (only kept when Model.BlobMediaTypes):
 	// every type it was pushed or mounted into this repository with since it last was absent; "*" = any.
-	BlobMT map[string]map[string]bool
+	BlobMT    map[string]map[string]bool
 	Manifests map[string]*Manifest
 	Tags      map[string]TagDesc
 }
@@ -180,10 +180,10 @@ type refs struct {
 	manifestMT []string // the media type each child descriptor states
 	subject    string
 	subjectMT  string
-	grey      bool // some descriptor is odd (empty media type, zero size with non-empty digest): either outcome
-	badDigest bool // some descriptor has an invalid digest
-	parseErr  bool
-	noConfig  bool
+	grey       bool // some descriptor is odd (empty media type, zero size with non-empty digest): either outcome
+	badDigest  bool // some descriptor has an invalid digest
+	parseErr   bool
+	noConfig   bool
 }
 
 // manifestRefs parses an OCI image manifest or index independently of ocimem.
